@@ -74,6 +74,21 @@ Theorem C22_oracle_sound : forall c,
     /\ (forall r, In r (c_reasons c) -> r <> []).
 Proof. exact oracle_sound. Qed.
 
+(* raising the keep-within duration (component-wise, non-negative components) moves the threshold
+   latest.AddDate(-Y,-M,-D).Add(-H h) back or leaves it, so no kept snapshot is dropped; rests on the
+   proved monotonicity of "first day of month k" in the civil-date arithmetic of AddDate *)
+Theorem C22_threshold_monotone : forall latest d d',
+  DurMono.le_dur d d' -> inst (threshold latest d') <= inst (threshold latest d).
+Proof. exact DurMono.threshold_mono. Qed.
+
+Theorem C22_monotone_duration : forall latest p d' l j,
+  DurMono.le_dur (p_within p) d' -> DurMono.dur_nonneg (p_within p) ->
+  nth_error (spec_keep latest p l) j = Some true ->
+  nth_error (spec_keep latest (mkPol (p_counts p) d' (p_withins p) (p_tags p)) l) j = Some true.
+Proof. intros latest p d' l j H1 H2. apply implb_list_nth, spec_keep_mono_within; assumption. Qed.
+
+Print Assumptions C22_threshold_monotone.
+Print Assumptions C22_monotone_duration.
 Print Assumptions C22_keep_is_union_of_rules.
 Print Assumptions C22_partition.
 Print Assumptions C22_counted_rule_closed_form.
